@@ -6,6 +6,14 @@ from baize.typing import Environ, StartResponse, WSGIApp
 from .responses import PlainTextResponse, Response
 
 
+def get_path(environ: Environ) -> str:
+    """
+    PEP 3333 passes PATH_INFO as bytes decoded with latin-1.
+    Recover the text of the path, like ASGI servers do for `scope["path"]`.
+    """
+    return environ.get("PATH_INFO", "").encode("latin-1").decode("utf-8", "replace")
+
+
 class Router(BaseRouter[WSGIApp]):
     """
     A router to assign different paths to different WSGI applications.
@@ -23,7 +31,7 @@ class Router(BaseRouter[WSGIApp]):
     def __call__(
         self, environ: Environ, start_response: StartResponse
     ) -> Iterable[bytes]:
-        result = self.search(environ.get("PATH_INFO", ""))
+        result = self.search(get_path(environ))
         if result is None:
             response: WSGIApp = Response(404)
         else:
@@ -51,14 +59,15 @@ class Subpaths(BaseSubpaths[WSGIApp]):
     def __call__(
         self, environ: Environ, start_response: StartResponse
     ) -> Iterable[bytes]:
-        path = environ.get("PATH_INFO", "")
-        result = self.search(path)
+        result = self.search(get_path(environ))
         if result is None:
             response: WSGIApp = Response(404)
         else:
             prefix, response = result
+            # environ holds the latin-1 form of the path's bytes
+            prefix = prefix.encode("utf-8").decode("latin-1")
             environ["SCRIPT_NAME"] = environ.get("SCRIPT_NAME", "") + prefix
-            environ["PATH_INFO"] = path[len(prefix) :]
+            environ["PATH_INFO"] = environ.get("PATH_INFO", "")[len(prefix) :]
         yield from response(environ, start_response)
 
 
